@@ -2337,8 +2337,6 @@ class C19(Check):
                                {"desc": desc, "args": argspec, "mode": mode},
                                {"kind": "exception", "scaled": bool(desc.get('scale_x')), "guess_argument": any(a in ('x', 'u') for a in argspec),
                                 "not_purely_symbolic": "purely symbolic" in str(ex)})
-                if bool(desc.get('scale_x')) and "purely symbolic" in str(ex) and any(a in ('x', 'u') for a in argspec):
-                    continue      # recorded known finding: keep exploring
                 return
             self.record_case(desc, True, {"method": desc['method'], "args": argspec, "mode": mode, "kind": kind})
             self.count("mode:" + mode)
